@@ -35,6 +35,12 @@ OnsetPRF(ref, est, ot, strict, b2) == PRF(MaxSize(Len(ref), OnsetEdges(ref, est,
 OffsetPRF(ref, est, ratio, mintol, strict, b2) ==
   PRF(MaxSize(Len(ref), OffsetEdges(ref, est, ratio, mintol, strict)), Len(ref), Len(est), b2)
 
+(* average overlap ratio of a GIVEN one-to-one pairing: mean over the pairs of                       *)
+(* (min(offsets) - max(onsets)) / (max(offsets) - min(onsets)); 0 for an empty pairing               *)
+OverlapRatio(r, e) == Norm(MinI(r.on + r.dur, e.on + e.dur) - MaxI(r.on, e.on), MaxI(r.on + r.dur, e.on + e.dur) - MinI(r.on, e.on))
+AOR(ref, est, M) == IF M = {} THEN <<0, 1>>
+                    ELSE RDiv(RSumOver([p \in M |-> OverlapRatio(ref[p[1]], est[p[2]])], M), R(Cardinality(M)))
+
 (* ---- tempo (McKinney et al.): a reference tempo is hit when some estimate is within tol * ref - *)
 TempoHit(rt, est, tol) == rt > 0 /\ \E j \in 1..2 : AbsI(rt - est[j]) * tol[2] <= tol[1] * rt
 TempoScores(ref, wgt, est, tol) ==
